@@ -192,7 +192,10 @@ func c05GenCases(rng *rand.Rand, tier string) []Case {
 	if tier == "thorough" {
 		L = 4
 	}
-	times := []uint64{1, 2, 3, 4, 5, 7}
+	times := []uint64{1, 2, 3, 4, 6}
+	if tier == "thorough" {
+		times = []uint64{1, 2, 3, 4, 5, 7}
+	}
 	id := 0
 	for _, n := range []int{1, 2, 3} {
 		var rec func(prefix []string, dup, coll bool, seen map[string]bool, slot map[uint64]uint64)
@@ -228,7 +231,7 @@ func c05GenCases(rng *rand.Rand, tier string) []Case {
 		}
 		rec(nil, false, false, map[string]bool{}, map[uint64]uint64{})
 	}
-	nr := 1500
+	nr := 1200
 	if tier == "thorough" {
 		nr = 150000
 	}
@@ -400,7 +403,7 @@ func init() {
 	register(&Prop{
 		ID: "C05",
 		Rule: "a real single Serf node per case (serf.Create, recording memberlist transport), EventBuffer N; user events through NotifyMsg, push/pull images through MergeRemoteState (with and without join-ignore). " +
-			"exhaustive: every sequence of ≤3 (thorough ≤4) events over times {1,2,3,4,5,7} × 2 items for N ∈ {1,2,3}; random: N ∈ {1,2,3,4,8,512}, 3–25 ops, times drawn around cur−N−2…cur+1, ±k·N from earlier times (slot collisions), exact repeats, small values, near 2^64−1 (2^64−1 itself in ≈4% of the cases and in the two fixed boundary cases); " +
+			"exhaustive: every sequence of ≤3 events over times {1,2,3,4,6} (thorough: ≤4 over {1,2,3,4,5,7}) × 2 items for N ∈ {1,2,3}; random: N ∈ {1,2,3,4,8,512}, 3–25 ops, times drawn around cur−N−2…cur+1, ±k·N from earlier times (slot collisions), exact repeats, small values, near 2^64−1 (2^64−1 itself in ≈4% of the cases and in the two fixed boundary cases); " +
 			"non-trivial = the case contains an exact duplicate and a slot collision; distinct = distinct op sequence",
 		Gen:  c05GenCases,
 		Exec: c05Exec,
